@@ -286,3 +286,49 @@ func CertDecision(in CheckInput) (bool, string) {
 	}
 	return true, "ok"
 }
+
+// CanonCert re-encodes a certificate blob after undoing exactly the two
+// encoding liberties that OpenSSH-format parsers are known to tolerate:
+// an option whose empty value is written as an embedded empty string
+// (data 00 00 00 00 instead of no data) and non-minimal mpints in the subject
+// key or the CA key.  Everything else is reproduced byte for byte.  kinds names
+// the liberties that were present.
+func CanonCert(b []byte) (canon []byte, kinds []string, err error) {
+	c, _, err := DecodeCert(b)
+	if err != nil {
+		return nil, nil, err
+	}
+	fix := func(o []Opt, label string) []Opt {
+		out := make([]Opt, len(o))
+		for i, x := range o {
+			out[i] = x
+			if len(x.Data) == 4 && x.Data[0]|x.Data[1]|x.Data[2]|x.Data[3] == 0 {
+				out[i].Data = []byte{}
+				kinds = append(kinds, label+"-empty-as-embedded-string")
+			}
+		}
+		return out
+	}
+	c.Critical = fix(c.Critical, "critical-option")
+	c.Ext = fix(c.Ext, "extension")
+	if ca, err := DecodePub(c.SigKey); err == nil {
+		if cb := ca.Blob(); string(cb) != string(c.SigKey) {
+			c.SigKey = cb
+			kinds = append(kinds, "ca-key-nonminimal-mpint")
+		}
+	}
+	canon = c.Bytes()
+	if len(kinds) == 0 && string(canon) != string(b) {
+		kinds = append(kinds, "subject-key-nonminimal-mpint")
+	} else if string(canon) != string(b) {
+		// find out whether the subject key also contributed
+		c2, _, _ := DecodeCert(b)
+		c2.RawKeyBody = nil
+		probe := *c
+		probe.Critical, probe.Ext, probe.SigKey = c2.Critical, c2.Ext, c2.SigKey
+		if string(probe.Bytes()) != string(b) {
+			kinds = append(kinds, "subject-key-nonminimal-mpint")
+		}
+	}
+	return canon, kinds, nil
+}
